@@ -35,7 +35,7 @@ TraceInit ==
     /\ where = [p \in Payloads |-> NoWhere]
     /\ xobs = [x \in DOMAIN Execs |-> NoX]
     /\ segopen = [f \in {"asyncio", "trio", "threading"} |-> 0]
-    /\ marks = [quiescent |-> FALSE, timeouts |-> 0, blocked |-> FALSE, coroafterblock |-> 0, failedatq |-> FALSE, lostatq |-> FALSE,
+    /\ marks = [aborted |-> FALSE, quiescent |-> FALSE, timeouts |-> 0, blocked |-> FALSE, coroafterblock |-> 0, failedatq |-> FALSE, lostatq |-> FALSE,
                 stuckatq |-> FALSE, exfail |-> FALSE, execstuck |-> FALSE, adoptstuck |-> FALSE, shutstuck |-> FALSE, restartfail |-> FALSE, stall |-> FALSE]
 
 Step_ == l <= Len(Tr.events) /\ l' = l + 1 /\ UNCHANGED tid
@@ -64,12 +64,12 @@ TStart == /\ Ev.e = "Start"
           /\ where' = [where EXCEPT ![Ev.p] = [tidc |-> Ev.tidc, loop |-> Ev.loop, argsok |-> Ev.argsok]]
           /\ h' = [h EXCEPT !.stepafter = @ \/ (Coroutine(Ev.p) /\ After)]
           /\ UNCHANGED <<phase, guard, endhow, cleanleft, adoptret, sigint, shut, result, xst, xobs, segopen, marks>>
-          /\ nc' = (nc \/ ~(pst[Ev.p] \in {"submitting", "submitted"} /\ phase[1] \in {"running", "closing", "closed"}))
+          /\ nc' = (nc \/ ~(pst[Ev.p] \in {"submitting", "submitted"} /\ (phase[1] \in {"running", "closing", "closed"} \/ (~Coroutine(Ev.p) /\ phase[1] = "ended" /\ Ev.p \notin Pre /\ Triggered))))
 TStep == /\ Ev.e = "Step"
          /\ h' = [h EXCEPT !.stepafter = @ \/ (Coroutine(Ev.p) /\ After)]
          /\ marks' = [marks EXCEPT !.coroafterblock = IF marks.blocked /\ Coroutine(Ev.p) THEN @ + 1 ELSE @]
          /\ UNCHANGED <<phase, guard, pst, starts, endhow, cleanleft, adoptret, sigint, shut, result, xst, where, xobs, segopen>>
-         /\ nc' = (nc \/ ~(pst[Ev.p] = "running" /\ (Coroutine(Ev.p) => ~After)))
+         /\ nc' = (nc \/ ~(pst[Ev.p] = "running" /\ (Coroutine(Ev.p) => ~After \/ marks.aborted)))
 TEnd == /\ Ev.e = "End"
         /\ pst' = [pst EXCEPT ![Ev.p] = "done"]
         /\ endhow' = [endhow EXCEPT ![Ev.p] = Ev.how]
@@ -81,13 +81,14 @@ TCancelled == /\ Ev.e = "Cancelled"
               /\ endhow' = [endhow EXCEPT ![Ev.p] = "cancelled"]
               /\ h' = [h EXCEPT !.stepafter = @ \/ After]
               /\ UNCHANGED <<phase, guard, starts, cleanleft, adoptret, sigint, shut, result, xst, where, xobs, segopen, marks>>
-              /\ nc' = (nc \/ ~Cancelled(Ev.p))
+              /\ nc' = (nc \/ ~(Cancelled(Ev.p) \/ (marks.aborted /\ Coroutine(Ev.p) /\ pst[Ev.p] = "running")))
 TCleanupStep == /\ Ev.e = "CleanupStep"
                 /\ cleanleft' = [cleanleft EXCEPT ![Ev.p] = IF @ > 0 THEN @ - 1 ELSE 0]
                 /\ pst' = [pst EXCEPT ![Ev.p] = IF cleanleft[Ev.p] <= 1 THEN "done" ELSE "cancelled"]
                 /\ h' = [h EXCEPT !.stepafter = @ \/ After]
                 /\ UNCHANGED <<phase, guard, starts, endhow, adoptret, sigint, shut, result, xst, where, xobs, segopen, marks>>
-                /\ nc' = (nc \/ ~CleanupStep(Ev.p))
+                \* (after the deviation F12 the unjoined trio payloads finish their cleanup on their own)
+                /\ nc' = (nc \/ ~(CleanupStep(Ev.p) \/ (marks.aborted /\ pst[Ev.p] = "cancelled" /\ cleanleft[Ev.p] > 0)))
 TAcceptCall == /\ Ev.e = "AcceptCall"
                /\ IF Ev.ok
                   THEN guard' = Ev.r /\ phase' = [phase EXCEPT ![Ev.r] = "starting"] /\ UNCHANGED result
@@ -111,7 +112,9 @@ TCloseEnd == /\ Ev.e = "CloseEnd"
              /\ UNCHANGED <<guard, pst, starts, endhow, cleanleft, adoptret, sigint, shut, result, xst, h, where, xobs, segopen, marks>>
              /\ nc' = (nc \/ ~CloseEnd(Ev.r))
 TAcceptRet == /\ Ev.e = "AcceptRet"
-              /\ UNCHANGED <<pst, starts, endhow, cleanleft, adoptret, sigint, shut, xst, h, where, xobs, segopen, marks>>
+              /\ UNCHANGED <<pst, starts, endhow, cleanleft, adoptret, sigint, shut, xst, h, where, xobs, segopen>>
+              \* the named deviation F12: accept() raised SystemExit without the trio thread joined
+              /\ marks' = [marks EXCEPT !.aborted = @ \/ (Ev.r = 1 /\ Ev.exc = "SystemExit" /\ \E p \in Payloads : ~Settled(p))]
               /\ IF result[Ev.r].kind = "guard_error"
                  THEN /\ UNCHANGED <<phase, guard>>
                       \* the rejected accept must have raised RuntimeError
